@@ -22,6 +22,30 @@ class JSText:
         self.tree, self.indent, self.suffix = tree, indent, suffix
         JSText._n += 1
         self.length = z3.Int(f"jslen!{JSText._n}")
+        self.concrete = None
+        try:  # the text itself when every leaf is concrete (what json.dumps returns for this tree)
+            def plain(t):
+                if t[0] == "leaf":
+                    if isinstance(t[1], Sym):
+                        raise ValueError
+                    return t[1]
+                if t[0] == "arr":
+                    return [plain(x) for x in t[1]]
+                return {k: plain(v) for k, v in t[1]}
+            self.concrete = json.dumps(plain(tree), indent=indent) + suffix
+            self.length = len(self.concrete)
+        except Exception:
+            pass
+
+    def startswith(self, prefix, *a):
+        if self.concrete is None:
+            raise Unsupported("startswith on abstract JSON text")
+        return self.concrete.startswith(prefix, *a)
+
+    def endswith(self, suffix, *a):
+        if self.concrete is None:
+            raise Unsupported("endswith on abstract JSON text")
+        return self.concrete.endswith(suffix, *a)
 
     def __add__(self, other):
         if isinstance(other, str):
